@@ -1,4 +1,31 @@
 // Package c06 decides property C06: finalized storage versions stay fully readable until pruned.
+//
+// Files: c06_test.go (helpers, reference node set, deterministic probes of the findings), machine_test.go (the
+// model-based state machine TestC06Versions and the two-backend differential TestC06BackendDiff),
+// concurrent_test.go (TestC06Concurrent, thorough tier, race detector).
+//
+// Findings on the unchanged tree (each has a probe TestC06KF* and is excluded by construction from the
+// generators while it is listed as known / named in VERIF_EXCLUDE_EXTRA):
+//
+//   - SigForeign  pathbadger Finalize never deletes the root node key of a non-finalized root; after the pending
+//     sequence numbers of the version are dropped its child pointers (version, index) resolve in the finalized key
+//     space, i.e. to the FINALIZED sibling's nodes: the discarded root is "present" and reads succeed with foreign
+//     contents. Precondition avoided when excluded: two distinct sibling candidates of one type that may both
+//     create non-root nodes (>= 2 keys and a non-empty batch).
+//   - SigListed   same cause: GetRootsForVersion of a finalized version keeps listing discarded candidates
+//     (badger lists the finalized roots only). When excluded the listing clause is skipped on pathbadger.
+//   - SigShared   badger Finalize puts every node PUT by a discarded root into maybeLoneNodes; a node that the
+//     discarded root re-put with an unchanged hash (no-op rewrite, or a plain removal that collapses a node with a
+//     zero-length label) and that the finalized root inherits untouched is not in notLoneNodes and is deleted at the
+//     version timestamp: the finalized root and every later version fail with "node not found". Precondition
+//     avoided when excluded (decided exactly from the observed PutNode traffic and the reference node set): a
+//     discarded candidate put a node that a finalized root contains and no root of the finalized closure put.
+//   - SigCross    the same across root types (badger node keys are plain hashes shared by state and IO trees), in
+//     Finalize (discarded IO candidate) and in Prune (lone IO root walks and deletes a leaf the state tree inherits).
+//     When excluded, state and IO values are made disjoint.
+//
+// Observation (not a violation, counted): badger Prune of a version whose finalized root is an explicitly committed
+// empty root fails with "node not found" forever (label not-accepted:prune:finalized-empty-root:badger:...).
 package c06
 
 import (
